@@ -199,6 +199,19 @@ def install_watchdog(seconds: float):
 
 
 def main(argv=None) -> int:
+    try:
+        return _main(argv)
+    finally:
+        # disarm the watchdog's interval timer: a tick during interpreter teardown (handlers already gone) kills the process
+        try:
+            import signal as _s
+            _s.setitimer(_s.ITIMER_REAL, 0)
+            _s.signal(_s.SIGALRM, _s.SIG_IGN)
+        except Exception:
+            pass
+
+
+def _main(argv=None) -> int:
     import argparse
     ap = argparse.ArgumentParser()
     ap.add_argument("prop")
